@@ -113,10 +113,17 @@ func (c *AdminOP)SetState(s StateDB){
 
 func (c *AdminOP) Run(input []byte) ([]byte, error) {
 	//[$len + $arg]
-	dlen := new(big.Int).SetBytes(input[:32]).Uint64()
-	offset := dlen + 32
-	if int(offset) > len(input) {
-		offset = uint64(len(input))
+	const head = 32 + 20 // length word + sender address
+	if len(input) < head {
+		return nil, fmt.Errorf("admin op: input of %d bytes is shorter than length word and sender", len(input))
+	}
+	dlen := new(big.Int).SetBytes(input[:32])
+	offset := uint64(len(input))
+	if dlen.IsUint64() && dlen.Uint64() <= uint64(len(input)-32) {
+		offset = dlen.Uint64() + 32
+	}
+	if offset < head {
+		return nil, fmt.Errorf("admin op: declared length %v does not cover the sender", dlen)
 	}
 	from := input[32:32+20]
 	data := input[32+20:offset]
